@@ -17,8 +17,7 @@ corpus/C19/finding_*.json are replayed through (P) on every run):
   stale_handle : close()/rename() through the handle of a model that is no longer
                  registered while (its last name is a registry key) or (rename_old and
                  the new name is a registry key).  Predicate: Mirror.trigger(op).
-  read_missing : read_model of a path that was never written (legacy serializer_1 path
-                 creates/renames models before failing).  Predicate: slot not written.
+  (read_missing, read_model of a path that was never written, is repaired in /repo and generated again)
 Also never generated (not defects, outside the model): edits / writes through closed
 handles, write_model of a model holding a cross-model reference.
 """
@@ -35,7 +34,7 @@ CASE_T = "nat * nat * list (op * obs)"
 TRUSTED = ["drivers/registry.py: identity tokens by `is`, counters advanced/probed through mx.new_model only",
            "isolation between model contents: (P) differential on the implementation only (no theorem)"]
 ASSUMPTIONS = ["names are ASCII (is_valid_name modelled on ASCII identifiers, keyword.kwlist of CPython 3.12)",
-               "read_model is only applied to paths written by write_model/zip_model of the same run",
+               "read_model is applied to paths written by write_model/zip_model of the same run or to paths that do not exist",
                "handles of closed models are only used where the pinned tree's name-keyed lookup cannot hit another model (finding stale_handle)"]
 
 
@@ -123,8 +122,7 @@ class Mirror:
             # finding stale_handle is repaired in /repo (4f69f1f): operations through the handle of a closed
             # model are generated with another model registered under its last name
             return False
-        if k == "read":
-            return op["slot"] not in self.files
+        # finding read_missing is repaired in /repo: reads of paths that were never written are generated
         if k in ("write", "edit") and not self.is_open(op["h"]):
             return True
         if k == "write" and self.content[op["h"]]["taint"]:
@@ -344,9 +342,10 @@ def gen_case(rng, slot, nops, stats):
                 continue
             op = {"k": "write", "h": rng.choice(opened), "slot": rng.randint(0, 2), "zip": rng.random() < 0.4}
         elif k == "read":
-            if not mr.files:
+            missing = rng.random() < 0.15          # a path that was never written (slot 3 never is)
+            if not mr.files and not missing:
                 continue
-            op = {"k": "read", "slot": rng.choice(sorted(mr.files)),
+            op = {"k": "read", "slot": rng.randint(0, 3) if missing else rng.choice(sorted(mr.files)),
                   "name": None if rng.random() < 0.45 else pick_name(mr, rng)}
         elif k == "setcur":
             op = {"k": "setcur", "name": pick_name(mr, rng, allow_invalid=False)}
